@@ -31,7 +31,7 @@ C08Env ==
            \A j \in 1..Len(Obs.eff) : Obs.eff[j].mode = "itext" =>
               {Obs.eff[j].vals[k][1] : k \in 1..Len(Obs.eff[j].vals)} = SeqToSet(Obs.langs))
 
-TInit == tid \in 1..Len(Traces) /\ l = 1 /\ pat = <<>> /\ dl = "" /\ nchg = 0 /\ last = 0
+TInit == tid \in 1..Len(Traces) /\ l = 1 /\ pat = <<>> /\ dl = "" /\ refs = FALSE /\ nchg = 0 /\ last = 0
 TItext == /\ l <= Len(T) /\ Ev.ev = "itext"
           /\ Check("converted", Ev.status = "ok")
           /\ (Prop = "C07" => C07Env)
